@@ -63,14 +63,15 @@ ReplaceTask(t, st) ==
     /\ Log([op |-> "replace", old |-> t, id |-> nxt, st |-> st])
     /\ UNCHANGED phase /\ NoExec
 
-\* wb.insert_workflow(other, predecessors=P): P = <<>> stands for None (= current output tasks)
-InsertWorkflow(s, P) ==
+\* wb.insert_workflow(other, predecessors=P): P = <<>> stands for None (= current output tasks);
+\* E = TRUE: the caller passed the explicit empty list [] (an unconnected insertion, NOT the same as None)
+InsertWorkflow(s, P, E) ==
     /\ Building /\ Room(Len(ShapeNodes(s, nxt)))
     /\ LET on == ShapeNodes(s, nxt)
            oe == ShapeEdges(s, nxt)
            ins == SourcesOf(on, oe)
-           outs == IF P = <<>> THEN Sinks ELSE P
-           op == [op |-> "insert", shape |-> s, first |-> nxt, preds |-> P]
+           outs == IF E THEN <<>> ELSE IF P = <<>> THEN Sinks ELSE P
+           op == [op |-> "insert", shape |-> s, first |-> nxt, preds |-> P, empty |-> E]
        IN /\ nxt' = nxt + Len(on)
           /\ IF Len(ins) = Len(outs)
              THEN /\ edges' = edges \cup oe \cup {<<outs[i], ins[i]>> : i \in 1..Len(ins)}
@@ -123,7 +124,8 @@ DoFinish == /\ phase = "exec" /\ \E t \in NodeSet : Finish(t)
 PredSeqs == {<<>>} \cup {<<a>> : a \in NodeSet} \cup {<<a, b>> : a, b \in NodeSet}
 DoAdd == \E P \in SUBSET NodeSet, st \in Statics, cx \in BOOLEAN : Cardinality(P) <= 2 /\ AddTask(P, st, cx)
 DoReplace == \E t \in NodeSet, st \in Statics : ReplaceTask(t, st)
-DoInsert == \E s \in Shapes, P \in PredSeqs : (Len(P) = 2 => P[1] # P[2]) /\ InsertWorkflow(s, P)
+DoInsert == \E s \in Shapes, P \in PredSeqs, E \in BOOLEAN :
+                /\ (Len(P) = 2 => P[1] # P[2]) /\ (E => P = <<>>) /\ InsertWorkflow(s, P, E)
 DoPlus == \E s \in Shapes : Building /\ Plus(s)
 Next == DoAdd \/ DoReplace \/ DoInsert \/ DoPlus \/ Execute \/ DoStart \/ DoFinish
 
